@@ -2,7 +2,7 @@
    Property theorems only (tree level; every view operation of the model is a composition of
    getter / setter / root / children, and the view level is tied by the correspondence).
    summ n m : n is m with some subtrees replaced by RootN (root subtree). *)
-Require Import RM.Base RM.Gindex RM.Tree RM.TreeProofs RM.PartialProofs.
+Require Import RM.Base RM.Gindex RM.Tree RM.TreeProofs RM.Types RM.ModelCodec RM.ModelMut RM.PartialProofs RM.PartialViews.
 
 Theorem C17_root : forall H n m, summ H n m -> root H n = root H m.
 Proof. exact summ_root. Qed.
@@ -51,3 +51,63 @@ Print Assumptions C17_set_expand.
 Print Assumptions C17_errors.
 Print Assumptions C17_summarize.
 Print Assumptions C17_nonvacuous.
+
+(* ---- view level: every view operation of the model that succeeds on the partial tree succeeds on the complete
+   tree with the same data and again related (equally rooted) backings — so operations compose into histories.
+   Hi: collision-free pair hash (needed where a write expands a zero summary); the complete tree is materialised. *)
+Theorem C17_writes_stay_related : forall H src (Hi : Hinj H) e p n m v n', novirt m -> summ H n m ->
+  setter H src e n p v = Ok n' -> exists m', setter H src e m p v = Ok m' /\ summ H n' m'.
+Proof. exact summ_setter. Qed.
+
+Theorem C17_view_get : forall H src t n m i x, summ H n m -> view_get H src t n i = Ok x ->
+  exists y, view_get H src t m i = Ok y /\ summ H x y.
+Proof. exact summ_view_get. Qed.
+
+Theorem C17_view_set : forall H src (Hi : Hinj H) t n m i x n', novirt m -> summ H n m -> view_set H src t n i x = Ok n' ->
+  exists m', view_set H src t m i x = Ok m' /\ summ H n' m'.
+Proof. exact summ_view_set. Qed.
+
+Theorem C17_list_append : forall H src (Hi : Hinj H) t n m x n', novirt m -> summ H n m -> list_append H src t n x = Ok n' ->
+  exists m', list_append H src t m x = Ok m' /\ summ H n' m'.
+Proof. exact summ_list_append. Qed.
+
+Theorem C17_list_pop : forall H src (Hi : Hinj H) t n m n', novirt m -> summ H n m -> list_pop H src t n = Ok n' ->
+  exists m', list_pop H src t m = Ok m' /\ summ H n' m'.
+Proof. exact summ_list_pop. Qed.
+
+Theorem C17_bits_get : forall H src t n m i b, summ H n m -> bits_get H src t n i = Ok b -> bits_get H src t m i = Ok b.
+Proof. exact summ_bits_get. Qed.
+
+Theorem C17_bits_set : forall H src (Hi : Hinj H) t n m i v n', novirt m -> summ H n m -> bits_set H src t n i v = Ok n' ->
+  exists m', bits_set H src t m i v = Ok m' /\ summ H n' m'.
+Proof. exact summ_bits_set. Qed.
+
+Theorem C17_bitlist_append : forall H src (Hi : Hinj H) t n m v n', novirt m -> summ H n m -> bitlist_append H src t n v = Ok n' ->
+  exists m', bitlist_append H src t m v = Ok m' /\ summ H n' m'.
+Proof. exact summ_bitlist_append. Qed.
+
+Theorem C17_bitlist_pop : forall H src (Hi : Hinj H) t n m n', novirt m -> summ H n m -> bitlist_pop H src t n = Ok n' ->
+  exists m', bitlist_pop H src t m = Ok m' /\ summ H n' m'.
+Proof. exact summ_bitlist_pop. Qed.
+
+Theorem C17_union_value : forall H src t n m r, summ H n m -> union_value H src t n = Ok r ->
+  match r with
+  | None => union_value H src t m = Ok None
+  | Some (o, x) => exists y, union_value H src t m = Ok (Some (o, y)) /\ summ H x y
+  end.
+Proof. exact summ_union_value. Qed.
+
+Theorem C17_lengths : forall H src t n m k, summ H n m -> view_len H src t n = Ok k -> view_len H src t m = Ok k.
+Proof. exact summ_view_len. Qed.
+
+Print Assumptions C17_writes_stay_related.
+Print Assumptions C17_view_get.
+Print Assumptions C17_view_set.
+Print Assumptions C17_list_append.
+Print Assumptions C17_list_pop.
+Print Assumptions C17_bits_get.
+Print Assumptions C17_bits_set.
+Print Assumptions C17_bitlist_append.
+Print Assumptions C17_bitlist_pop.
+Print Assumptions C17_union_value.
+Print Assumptions C17_lengths.
